@@ -42,22 +42,24 @@ def seq(check, tier, shards=1, extra=None):
 
 def tasks_c01(tier, seed):
     ts = []
+    alt = "w1-in1-tagged-route"
     if tier == "quick":
-        ts += explore("Q1s", CFG_DEFAULT, 2, shards=12)
+        ts += explore("Q1s", CFG_DEFAULT, 2, shards=12, timeout="100s")
         for c in cfg_axis():
             if c != CFG_DEFAULT:
-                ts += explore("Q1s", c, 1, shards=1)
-        for s in ("Q2", "Q3", "Q6"):
-            ts += explore(s, CFG_DEFAULT, 2, shards=2)
-            ts += explore(s, "w1-in1-tagged-route", 2, shards=1)
-        ts += explore("Q1", CFG_DEFAULT, 1, shards=4)
+                ts += explore("Q1s", c, 1, shards=1, timeout="60s")
+        ts += explore("Q2", CFG_DEFAULT, 2) + explore("Q2", alt, 2)
+        ts += explore("Q3", CFG_DEFAULT, 1, timeout="60s") + explore("Q3", alt, 2, shards=4, timeout="60s")
+        ts += explore("Q6", alt, 2, shards=2, timeout="60s") + explore("Q6", "w1-in4-default-direct", 1, shards=2, timeout="60s")
+        ts += explore("Q1", CFG_DEFAULT, 0, shards=1, timeout="60s")
     else:
         for c in cfg_axis():
-            ts += explore("Q1s", c, 2, shards=8)
+            ts += explore("Q1s", c, 2, shards=8, timeout="30m")
             for s in ("Q2", "Q3", "Q6"):
-                ts += explore(s, c, 3 if c == CFG_DEFAULT else 2, shards=4)
+                ts += explore(s, c, 2, shards=4, timeout="30m")
         ts += explore("Q1", CFG_DEFAULT, 2, shards=16, timeout="40m")
         ts += explore("Q1s", "w1-in4-default-direct", 3, shards=16, timeout="40m")
+        ts += explore("Q2", CFG_DEFAULT, 3, shards=8, timeout="40m")
     return ts
 
 
@@ -103,7 +105,7 @@ def tasks_c17(tier, seed):
 
 
 def tasks_c18(tier, seed):
-    return seq("c18", tier, shards=4)
+    return seq("c18", tier, shards=4) + seq("c04", tier, shards=8) + seq("c07", tier, shards=4)
 
 
 PLANS = {
@@ -129,6 +131,43 @@ PLANS = {
             "assumptions": ["encoding/json generic decoding is the reference for JSON equality", "an explicit soft:false is the same RES value as an absent soft member"]},
     "C03": {"tasks": tasks_c03, "level": "model_checking",
             "assumptions": ["Shutdown is called from outside callbacks", "envnats models the connection"]},
+}
+
+
+NOT_YET = {}
+
+E1 = "vsched"
+MANIFEST_TEXT = {
+    "C01": {"engine": E1, "technique": "stateless model checking of the implementation: preemption-bounded DFS over all interleavings with happens-before state caching",
+            "level": "Every interleaving (up to the stated preemption bound) of closed client programs against the real Service under a controlled scheduler; a per-group occupancy monitor is evaluated on every execution.",
+            "note": "Scheduling points are the sync/atomic/channel/timer operations of go-res, timerqueue, taskqueue, keylock and harness emits; plain memory accesses are covered by C16; programs are the enumerated scenarios x configurations."},
+    "C02": {"engine": E1, "technique": "stateless model checking of the implementation: preemption-bounded DFS over all interleavings with happens-before state caching",
+            "level": "Same exploration as C01 with an exactly-once / submission-order oracle evaluated at quiescence on every execution.",
+            "note": "Same trusted base as C01; order is required only between submissions ordered by happens-before in the scenario."},
+    "C03": {"engine": E1, "technique": "stateless model checking of the implementation: preemption-bounded DFS, deadlock detection on every schedule",
+            "level": "Every interleaving (up to the bound) of Shutdown against With calls, deliveries, publishing API calls, a running callback, subscription failure and restart; deadlock, panics, worker survival, callback-after-return and Close count are checked on every execution.",
+            "note": "Shutdown is called from outside callbacks; the in-memory connection models NATS delivery; nil-dereference windows between non-visible operations are the domain of C16."},
+    "C04": {"engine": "seq", "technique": "bounded-exhaustive enumeration of handler scripts x request kinds x registrations x payloads on the real service under the scheduler (exact quiescence)",
+            "level": "Every request kind, registration shape, payload and handler behaviour script up to the length bound runs on a fresh real service; the number of responses is counted after exact quiescence and a probe request checks liveness.",
+            "note": "One request at a time per service instance; concurrency of requests is explored in the C01/C02 scenarios."},
+    "C05": {"engine": "seq", "technique": "bounded-exhaustive enumeration of registrations x subjects x payload field combinations x request histories against a table-driven reference dispatcher",
+            "level": "All handler-kind subsets on 1-2 patterns x 552 subjects with dotted and method-like names, all 2^9 payload field combinations, and all request histories of length <=3 over 8 payloads on one service, compared with a reference dispatcher and outcome mapping.",
+            "note": "The reference dispatcher is 120 lines of table lookups written from the property text; accessors are compared with the values the harness itself put into the payload."},
+    "C06": {"engine": "seq", "technique": "bounded-exhaustive enumeration of pattern sets x mount arrangements x names against a brute-force reference matcher",
+            "level": "Every ordered set of <=2 (quick) / <=3 (thorough) valid patterns over a 6-token alphabet, in 9 arrangements across mounted sub-muxes and path prefixes, 4 group templates, against every name of <=4 tokens plus malformed and near-miss names.",
+            "note": "Patterns with a repeated tag name and listeners without handlers are outside the space (unspecified / rejected by Serve)."},
+    "C07": {"engine": "seq", "technique": "bounded-exhaustive enumeration of reply/event methods x value zoo x meta x http with an independent protocol validator on every published message",
+            "level": "Every exported reply and event method with every value shape (including unmarshalable ones), meta combination and http flag; plus every message published in the C04 and C08 enumerations is parsed by an independent validator.",
+            "note": "The validator encodes the documented message shapes; it shares no code with go-res."},
+    "C08": {"engine": "seq", "technique": "bounded-exhaustive enumeration of event-call sequences x apply handlers x listener placements x resource types with a global-log reference model",
+            "level": "Every sequence of <=3 (4 thorough) event calls over 13 actions in request handlers and With callbacks, with 4 apply-handler modes, 5 listener placements and 3 resource types; one global log of apply/publish/listener steps is compared with a reference log.",
+            "note": "Cross-callback ordering on the connection follows from C02 (per-group order) and program order checked here."},
+    "C17": {"engine": "seq", "technique": "bounded-exhaustive enumeration of pattern and name strings over the special-character alphabet against a tokenising reference",
+            "level": "Every pattern string of <=5 (6 thorough) characters over 8 symbols against every name of <=5 characters over 5 symbols, all pattern/pattern cover pairs, parts, resource ids, method/event argument checks, tag maps and the id-transformer round trip.",
+            "note": "Inputs the documentation leaves undefined are excluded and counted in the evidence."},
+    "C18": {"engine": "seq", "technique": "bounded-exhaustive enumeration of strings, JSON values and JSON texts through the marshalling code, compared with encoding/json generic decoding",
+            "level": "Every string of <=3 (4 thorough) code points through Ref/SoftRef, every JSON value of depth <=2 through the data-value functions, 30 JSON text templates x 5 whitespace placements through store.Value (classification, equivalence on all pairs/triples), and every response of the C04/C07 enumerations through resprot.ParseResponse.",
+            "note": "encoding/json is the reference for JSON equality."},
 }
 
 
@@ -175,10 +214,7 @@ def merge(prop, tier, seed, P, results):
     if sq:
         cov["evaluations"] = sum(r["evaluations"] for r in sq)
         cov["distinct_nontrivial"] = sum(r["distinct_nontrivial"] for r in sq)
-        if not ex:
-            cov["states"] = max(1, sum(r.get("states", 0) for r in sq))
-            cov["transitions"] = max(1, sum(r.get("transitions", 0) for r in sq))
-            cov["traces_validated_against_impl"] = cov["evaluations"]
+        cov["executions_of_real_code"] = cov["evaluations"]
         cov["seq_checks"] = {}
         for r in sq:
             c = cov["seq_checks"].setdefault(r["check"], {"evaluations": 0, "distinct_nontrivial": 0, "exhaustive": True, "excluded_unspecified": 0, "extra": {}})
@@ -190,7 +226,7 @@ def merge(prop, tier, seed, P, results):
                 c["extra"][k] = c["extra"].get(k, 0) + v
             if r.get("rule"):
                 c["rule"] = r["rule"]
-            if r.get("samples") and len(samples) < 6:
+            if r.get("samples") and len(samples) < 6 and not any(x.get("check") == r["check"] for x in samples):
                 samples.append({"check": r["check"], "cases": r["samples"][:5]})
             for v in r.get("violations") or []:
                 if v["desc"].startswith(prop + ":") or not v["desc"][:3] in PLANS:
